@@ -74,7 +74,8 @@ RULE = (
     "(complex inverse by exact elimination) and emits the call trace it expects; trace and freq compared exactly, values at "
     "1e-9 of the largest entry when every reference block has cond < 1e5 (else counted as skipped), exceptions on a "
     "malformed stream (no setups, unknown method, ragged records, differing reference counts, duplicated reference "
-    "channel). oracle: one recording cut into 2..4 setups with 1..3 shared references anywhere in the channel lists, "
+    "channel); the hand-over from the user's datasets and ref_ind (op ms_gather on symbolic datasets): MultiSetup_PreGER.data "
+    "and both arguments of every SD_est call through the three classes, entry by entry. oracle: one recording cut into 2..4 setups with 1..3 shared references anywhere in the channel lists, "
     "per-setup gains, both estimators, nxseg 64..1024, pov in {0,.25,.5,.75}: merged == mean(g^2) * single-setup "
     "SD_est([refs; rov...], refs) at 1e-8 of the largest entry, same grid; gain relation on independent recordings. "
     "distinct = distinct (method, nxseg, pov, n_ref, roving counts, via) configurations"
